@@ -337,6 +337,12 @@ func c09ctx(p *Program, r *Report, rule string) {
 		parent string // "bg" or "param"
 	}{{"Conn.writeClose", "bg"}, {"Conn.waitCloseHandshake", "bg"}, {"Conn.handleControl", "param"}, {"Conn.writeControl", "param"}} {
 		fn := p.Func(s.fn)
+		if s.fn == "Conn.writeClose" {
+			if ctxFn := p.FuncOpt("Conn.writeCloseCtx"); ctxFn != nil {
+				// the close frame writer is bounded by its caller's context and 5 s; writeClose passes Background (checked below)
+				fn, s.parent = ctxFn, "param"
+			}
+		}
 		if fn == nil {
 			continue
 		}
@@ -344,7 +350,7 @@ func c09ctx(p *Program, r *Report, rule string) {
 		p.forAllPaths(r, rule, fn, "bounded context", Opts{Unroll: 1},
 			"the function bounds its blocking work by context.WithTimeout(…, 5 s) (from Background on the close path, from its own ctx for control frames), defers the cancel, and passes the derived context to the blocking callees", func(pa *Path) (bool, string) {
 				wt := pa.Calls("context.WithTimeout")
-				blocking := []string{"Conn.writeControl", "Conn.writeFrame", "Conn.readFramePayload", "Conn.readLoop", "mu.lock", "Conn.discardFramePayload"}
+				blocking := []string{"Conn.writeControl", "Conn.writeFrame", "Conn.readFramePayload", "Conn.readLoop", "mu.lock", "Conn.discardFramePayload", "Conn.writeCloseCtx"}
 				hasBlocking := false
 				for _, e := range pa.Events {
 					if isCall(e, blocking...) {
@@ -388,6 +394,17 @@ func c09ctx(p *Program, r *Report, rule string) {
 				return true, ""
 			})
 	}
+	if p.FuncOpt("Conn.writeCloseCtx") != nil {
+		if fn := p.Func("Conn.writeClose"); fn != nil {
+			p.forAllPaths(r, rule, fn, "close frames without a caller context", Opts{}, "writeClose(code, reason) is writeCloseCtx(context.Background(), code, reason): bounded by the 5 s of writeCloseCtx alone", func(pa *Path) (bool, string) {
+				wc := pa.Calls("Conn.writeCloseCtx")
+				if len(wc) != 1 || !isBackground(wc[0].Args[1]) || argKey(wc[0], 2) != "param:code" || argKey(wc[0], 3) != "param:reason" || pa.Ret[0].Key() != wc[0].Res.Key() {
+					return false, "writeClose does not forward to writeCloseCtx(context.Background(), code, reason)"
+				}
+				return true, ""
+			})
+		}
+	}
 	if fn := p.Func("Conn.waitGoroutines"); fn != nil {
 		p.forAllPaths(r, rule, fn, "15 s join timer", Opts{}, "waitGoroutines bounds its waits with time.NewTimer(15 s) and every blocking select has the timer case", func(pa *Path) (bool, string) {
 			nt := pa.Calls("time.NewTimer")
@@ -427,6 +444,7 @@ func c09escape(p *Program, r *Report, rule string) {
 	frozen := map[string]string{
 		"mu.forceLock|send":   "its holder is inside an armed window or a bounded section; used only on teardown after the transport was closed",
 		"NetConn|recv":        "drain of a timer channel, reachable only if Stop reports a fired timer (never for AfterFunc timers)",
+		"Conn.CloseRead$1|recv": "waits for the Close/CloseNow that already took over the closing (casClosing lost): that closer closes c.closed within its own bounds (CloseNow at once, Close after at most its two 5 s phases)",
 		"xsync.Go$1|send":     "buffered channel of capacity 1, single send",
 		"xsync.Go$1$1|select": "non-blocking",
 	}
@@ -646,6 +664,8 @@ func runC09(p *Program, r *Report) {
 	c09ctx(p, r, "C09.ctx")
 	c09escape(p, r, "C09.escape")
 	c09cancel(p, r, "C09.cancel")
+	c09closenow(p, r, "C09.closenow")
+	c06echo(p, r, "C09.echo")
 	c10loop(p, r, "C09.watcher")
 	c20selfjoin(p, r, "C09.selfjoin")
 	c05leak(p, r, getLockEnv(p), "C09.release")
@@ -710,6 +730,8 @@ func runC10(p *Program, r *Report) {
 	c10loop(p, r, "C10.loop")
 	c10child(p, r, "C10.child")
 	c09ctx(p, r, "C10.child.ctx")
+	c06echo(p, r, "C10.echo")
+	c10readside(p, r, "C10.readside.ctx")
 	cRwc(p, r, "C10.rwc")
 	c05msglock(p, r, "C10.msglock")
 }
@@ -846,7 +868,11 @@ func c10child(p *Program, r *Report, rule string) {
 		})
 	}
 	// deriving functions do not arm
-	for _, name := range []string{"Conn.handleControl", "Conn.writeControl", "Conn.writeClose", "Conn.waitCloseHandshake"} {
+	closeWriterName := "Conn.writeClose"
+	if p.FuncOpt("Conn.writeCloseCtx") != nil {
+		closeWriterName = "Conn.writeCloseCtx"
+	}
+	for _, name := range []string{"Conn.handleControl", "Conn.writeControl", closeWriterName, "Conn.waitCloseHandshake"} {
 		fn := p.Func(name)
 		if fn == nil {
 			continue
@@ -1045,4 +1071,75 @@ func runC20(p *Program, r *Report) {
 	if us := unresolvedDynamic(p); len(us) > 0 {
 		r.Undecide("C20: dynamic call sites not in the dispatch table (call graph incomplete): %v", us)
 	}
+}
+
+// c09closenow: CloseNow closes the transport itself even when another closer already took the closing flag
+// (a Close or the CloseRead goroutine in the middle of a handshake with a silent peer): it does not wait for their timeouts.
+func c09closenow(p *Program, r *Report, rule string) {
+	fn := p.Func("Conn.CloseNow")
+	if fn == nil {
+		return
+	}
+	p.forAllPaths(r, rule, fn, "the transport is closed before anything is waited for", Opts{},
+		"on every path CloseNow closes the transport (close or closeTransport) before it waits for the goroutines, also when casClosing() was lost to a handshake in progress", func(pa *Path) (bool, string) {
+			wi := eventIndex(pa, 0, func(e *Event) bool { return isCall(e, "Conn.waitGoroutines") })
+			ci := eventIndex(pa, 0, func(e *Event) bool { return isCall(e, "Conn.close", "Conn.closeTransport") && !e.Deferred })
+			if wi >= 0 && (ci < 0 || ci > wi) {
+				return false, "waits for the goroutines with the transport still open"
+			}
+			return true, ""
+		})
+}
+
+// c06closereadYield: when a data message arrives on a CloseRead connection while Close/CloseNow already owns the
+// closing, the CloseRead goroutine must not tear the transport down under it (the close frame would be lost).
+func c06closereadYield(p *Program, r *Report, rule string) {
+	fn := p.Func("Conn.CloseRead$1")
+	if fn == nil {
+		return
+	}
+	p.forAllPaths(r, rule, fn, "yields to a closer in progress", Opts{},
+		"after a data message (Reader returned nil) the goroutine either wins casClosing and runs the 1008 handshake, or — the flag is taken — waits for Conn.closed before its deferred close runs", func(pa *Path) (bool, string) {
+			ok, known := decidedLike(pa, "call:Conn.Reader@@#2 == nil")
+			if !known || !ok {
+				return true, ""
+			}
+			won := false
+			for _, d := range pa.Decisions {
+				if strings.HasPrefix(d.Key, "call:Conn.casClosing@") {
+					won = d.Val
+				}
+			}
+			if won {
+				if len(pa.Calls("Conn.closeHandshake")) != 1 {
+					return false, "data message without the policy-violation handshake"
+				}
+				return true, ""
+			}
+			for _, e := range pa.Events {
+				if (e.Kind == "recv" || e.Kind == "select") && e.Chan != nil && e.Chan.Key() == "Conn.closed" {
+					return true, ""
+				}
+			}
+			return false, "falls through to the deferred close while another closer is in the middle of its handshake"
+		})
+}
+
+// c10readside: a frame the library writes on behalf of a read call is bounded by that call's context. The echo of a
+// received close frame is (C10.echo); the close frame of a failure close (writeError: protocol error, message too big)
+// is written by writeClose under context.Background() + 5 s — the read's context is not consulted for up to 5 s.
+func c10readside(p *Program, r *Report, rule string) {
+	fn := p.Func("Conn.writeError")
+	if fn == nil {
+		return
+	}
+	p.forAllPaths(r, rule, fn, "close frame bounded by the read's context", Opts{},
+		"writeError receives the context of the read it fails and writes its close frame under it (writeCloseCtx(ctx, …)): a Read whose context ends while that frame cannot be written returns promptly", func(pa *Path) (bool, string) {
+			for _, e := range pa.Calls("Conn.writeClose") {
+				if e.Val == nil || !strings.HasPrefix(e.Val.Key(), "param:") {
+					return false, "the close frame of a failure close is written under context.Background() + 5 s (writeClose), not under the context of the read that failed"
+				}
+			}
+			return true, ""
+		})
 }
